@@ -174,7 +174,7 @@ fn build_any(api: Api, shape: &Shape, weights: &[u32], hits: &Arc<Vec<AtomicU64>
                 ($c:expr) => {
                     match $c {
                         Ok(c) => Built::Chain(Box::new(move |pop: &Pop, mut rng: &mut dyn rand::RngCore| {
-                            c.select(pop, &mut rng).map(|x| *x).map_err(|e| e.to_string())
+                            c.select(pop, &mut rng).map(|x| *x).map_err(|e| format!("{e:?}"))
                         })),
                         Err(WeightSumOverflow(a, b)) => Built::BuildError(a, b),
                     }
@@ -208,7 +208,8 @@ fn select_once<R: Rng>(b: &Built, pop: &Pop, rng: &mut R) -> Result<Option<u32>,
         },
         Built::Chain(f) => match f(pop, rng) {
             Ok(x) => Ok(Some(x)),
-            Err(e) if e.contains("zero weight") || e.contains("weight zero") => Ok(None),
+            // derived Debug names the leaf error type (robust against message rewording)
+            Err(e) if e.contains("ZeroWeight") => Ok(None),
             Err(e) => Err(e),
         },
         Built::Dyn(d) => match d.select(pop, rng) {
